@@ -213,9 +213,12 @@ def run(ctx):
                       % (len(model_bad), describe(i, rej, [])))
     for gr in gauge_bad[:3]:
         sc = gr.get("scenario", {})
-        ctx.violation("open-connection-gauge-%s" % sc.get("stack", "?"),
+        direct = str(sc.get("stack", "")).startswith("direct-")
+        ctx.violation(("shutdown-result-%s" if direct else "open-connection-gauge-%s") % sc.get("stack", "?"),
                       {"kind": "gauge", "scenario": sc, "observed": {k: v for k, v in gr.items() if k != "scenario"}},
-                      True, "listener_cx_active does not return to the number of open connections / to zero (%s): observed %s (T11_counter_balanced)"
+                      True, ("Shutdown called directly: result code %s, wanted %s (1 nil, 2 exactly ctx.Err(), 3 anything else), counter afterwards %s (%%s): observed %%s (T11_success_means_drained / T11_else_ctx_error / T11_counter_balanced)"
+                             % (gr.get("shutdown_result"), gr.get("shutdown_want"), gr.get("gauge_after")) if direct else
+                             "listener_cx_active does not return to the number of open connections / to zero (%s): observed %s (T11_counter_balanced)")
                       % (sc.get("name"), json.dumps({k: v for k, v in gr.items() if k != "scenario"})))
     for mr in mitm_bad[:3]:
         sc = mr.get("scenario", {})
